@@ -1,10 +1,19 @@
 """C13 - datagram field encoding and decoding round-trip.
 
-Every combination of up to three format groups (with values; the last one
-optionally read-only) and raw data in {None, 0, 3, b"", 1, 3, 40 bytes} goes
-through the real EtherCat.roundtrip / sendloop / process_packet on the virtual
-loop; the payload on the wire and the returned tuple are compared with an
-independent little-endian struct reference.
+Single requests: every combination of up to three (thorough: four) format
+groups (with values; the last one optionally read-only) and raw data - none,
+a count of zeros 0..8 / 40, bytes of every length 0..8 / 40 - goes through the
+real EtherCat.roundtrip / sendloop / process_packet on the virtual loop; the
+payload on the wire and the returned tuple are compared with an independent
+little-endian struct reference.
+
+Histories: sequences of two or three requests, one after the other on ONE
+EtherCat object, in which earlier requests may be refused while they are put
+together (a value that does not fit its field - in the first or a later field
+-, a value of the wrong type, too few values, trailing data of the wrong type,
+more zeros / bytes than a frame can hold).  A refused request must raise and
+put nothing on the wire; every other request must send and return exactly what
+the reference says, i.e. what it sends and returns on a fresh object.
 """
 import asyncio
 import itertools
@@ -16,17 +25,37 @@ from ebpfcat.ethercat import ECCmd, EtherCat
 
 PROP = "C13"
 LEVEL = "model_checking"
-RULE = ("all argument lists: <= 3 (thorough: 4) format groups from the alphabet, each with "
-        "values, the last optionally read-only, x raw-data alphabet x 2 "
-        "commands; non-trivial = the request was sent; distinct = distinct "
-        "argument list")
+RULE = ("single requests: all argument lists of <= 3 (thorough: 4) format "
+        "groups from the alphabet, each with values, the last optionally "
+        "read-only, x raw-data alphabet (none, counts and byte strings of "
+        "every length 0..8 and 40) x 2 commands; histories: all sequences of "
+        "2-3 requests from the history alphabet (accepted and refused "
+        "requests) on one EtherCat object; non-trivial = at least one "
+        "request was sent; distinct = distinct argument list / history")
 
 GROUPS = [("B", (0xA1,)), ("H", (0xB2C3,)), ("I", (0xD4E5F607,)),
           ("H2xH", (0x1122, 0x3344)), ("4s", (b"wxyz",)),
           ("HBB", (0x5566, 0x77, 0x88)), ("BI", (0x99, 0xA0B0C0D0)),
           ("8s", (b"12345678",)), ("h", (-2,)), ("q", (-3,)),
           ("BQ", (1, 0x0102030405060708))]
-DATA = [None, 0, 3, b"", b"\x01", b"abc", bytes(range(100, 140))]
+# the raw-data alphabet; SMALL is used where the product gets large
+SMALL = [None, 0, 3, b"", b"\x01", b"abc", bytes(range(100, 140))]
+DATA = [None] + list(range(9)) + [40] \
+    + [bytes(range(100, 100 + n)) for n in range(9)] \
+    + [bytes(range(100, 140))]
+MAXDATA = 1500 - 16 - 12    # the largest datagram a frame can hold
+
+# groups that cannot be encoded: the request has to be refused
+BAD_GROUPS = [("H", (70000,)),                # does not fit, first field
+              ("HH", (0x1234, 70000)),        # ... a later field
+              ("BI", (0x12, 1 << 32)),
+              ("IB", (0xA1B2C3D4, 256)),
+              ("B", (-1,)),
+              ("h", (40000,)),
+              ("H", (1.5,)),                  # wrong type
+              ("4s", (5,)),
+              ("I", (b"ab",)),
+              ("HH", (7,))]                   # too few values
 
 
 def resp_bytes(n):
@@ -48,25 +77,45 @@ class EchoTransport:
         self.loop.call_soon(self.ec.datagram_received, bytes(out), None)
 
 
-def run_case(case, res):
-    groups, readonly, data, cmd = case
+def reference(groups, readonly, data):
+    """-> (args for roundtrip, bytes expected on the wire or None when the
+    request cannot be encoded, acceptable return values)
+
+    Written from roundtrip's docstring: the formats are little-endian struct
+    formats, each followed by its values; the last one may come without
+    values and is then sent as zeros; data follows, an integer is a count of
+    zeros.  What no frame can hold, or what struct cannot encode, cannot be
+    sent."""
     args = []
     sent_exp = b""
     offs = []
     for i, (fmt, vals) in enumerate(groups):
         args.append(fmt)
         size = struct.calcsize("<" + fmt)
-        offs.append((fmt, len(sent_exp)))
+        offs.append((fmt, None if sent_exp is None else len(sent_exp)))
         if readonly and i == len(groups) - 1:
-            sent_exp += bytes(size)
+            part = bytes(size)
         else:
             args.extend(vals)
-            sent_exp += struct.pack("<" + fmt, *vals)
+            try:
+                part = struct.pack("<" + fmt, *vals)
+            except struct.error:
+                part = None
+        sent_exp = None if part is None or sent_exp is None \
+            else sent_exp + part
+    if sent_exp is None:
+        return args, None, []
     fmt_len = len(sent_exp)
-    if isinstance(data, int):
+    if data is None:
+        pass
+    elif isinstance(data, int) and not isinstance(data, bool):
         sent_exp += bytes(data)
-    elif data is not None:
+    elif isinstance(data, (bytes, bytearray)):
         sent_exp += data
+    else:
+        return args, None, []
+    if len(sent_exp) > MAXDATA:
+        return args, None, []
     R = resp_bytes(len(sent_exp))
     decoded = ()
     for fmt, o in offs:
@@ -77,6 +126,44 @@ def run_case(case, res):
         accept = [decoded + (R[fmt_len:],)]
     else:
         accept = [R, (R,)]
+    return args, sent_exp, accept
+
+
+def show(x):
+    """JSON-friendly and reversible (see unshow)"""
+    if isinstance(x, (bytes, bytearray)):
+        return {"b": bytes(x).hex()}
+    if isinstance(x, str):
+        return {"s": x}
+    if isinstance(x, (tuple, list)):
+        return [show(v) for v in x]
+    return x
+
+
+def unshow(x):
+    if isinstance(x, dict):
+        return bytes.fromhex(x["b"]) if "b" in x else x["s"]
+    if isinstance(x, list):
+        return tuple(unshow(v) for v in x)
+    return x
+
+
+def outcome(t):
+    if not t.done():
+        return ("pending",)
+    if t.cancelled():
+        return ("cancelled",)
+    if t.exception() is not None:
+        return ("error", type(t.exception()).__name__)
+    return ("result", t.result())
+
+
+def run_case(case, res):
+    groups, readonly, data, cmd = case
+    args, sent_exp, accept = reference(groups, readonly, data)
+    if sent_exp is None:
+        raise core.Internal("single cases are meant to be encodable: %r"
+                            % (case,))
     jcase = dict(args=[a if not isinstance(a, bytes) else a.hex()
                        for a in args], data=data, cmd=cmd)
     res.count("evaluations")
@@ -92,12 +179,7 @@ def run_case(case, res):
             loop.settle(2000)
         except RuntimeError:
             pass
-        if not t.done():
-            out = ("pending",)
-        elif t.exception() is not None:
-            out = ("error", type(t.exception()).__name__)
-        else:
-            out = ("result", t.result())
+        out = outcome(t)
         sent = list(tp.sent)
         loop.shutdown()
     kf = None
@@ -132,16 +214,106 @@ def run_case(case, res):
                            "decoding")
 
 
+def run_history(history, res):
+    """history: tuple of requests (groups, readonly, data, cmd), executed one
+    after the other (each one is left to complete) on one EtherCat object"""
+    jcase = dict(history=[dict(groups=show(g), readonly=ro, data=show(data),
+                               cmd=cmd) for g, ro, data, cmd in history])
+    refs = [reference(g, ro, data) for g, ro, data, cmd in history]
+    shape = "".join("r" if r[1] is None else "a" for r in refs)
+    res.count("evaluations")
+    res.count("histories")
+    steps = []
+    loop = vloop.VLoop()
+    with loop:
+        ec = EtherCat("sim")
+        ec.send_queue = asyncio.Queue()
+        tp = ec.transport = EchoTransport(loop, ec)
+        st = asyncio.ensure_future(ec.sendloop())
+        for k, ((g, ro, data, cmd), (args, _, _)) in enumerate(
+                zip(history, refs)):
+            before = len(tp.sent)
+            t = asyncio.ensure_future(ec.roundtrip(
+                ECCmd(cmd), 7 + k, 0x120 + k, *args, data=data, idx=3 + k))
+            try:
+                loop.settle(2000)
+            except RuntimeError:
+                pass
+            steps.append((outcome(t), tp.sent[before:]))
+            if not t.done():
+                t.cancel()
+        if st.done() and not st.cancelled():
+            steps.append((("sendloop ended", repr(st.exception())), []))
+        loop.shutdown()
+    if len(steps) > len(history):
+        res.violation(jcase, "the send loop keeps running", steps[-1][0][1],
+                      sig=core.digest(["sendloop", shape]),
+                      note="send loop ended during a history")
+        return
+    if any(frames for _, frames in steps):
+        res.nontrivial.add(core.digest(jcase))
+    for k, ((out, frames), (args, sent_exp, accept)) in enumerate(
+            zip(steps, refs)):
+        cmd = history[k][3]
+        after = "" if "r" not in shape[:k] else \
+            " after a refused request on the same object"
+        res.count("transitions", 1 + len(frames))
+        if sent_exp is None:
+            res.outcomes.add(("refused", out[0],
+                              out[1] if out[0] == "error" else None))
+            if frames:
+                res.violation(jcase, "nothing sent (request %d cannot be "
+                              "encoded)" % k, [f.hex()[:120] for f in frames],
+                              sig=core.digest(["refused sent", shape, k]),
+                              note="a request that cannot be encoded put "
+                                   "something on the wire")
+            if out[0] != "error":
+                res.violation(jcase, "request %d raises" % k, show(out),
+                              sig=core.digest(["refused", out[0], shape, k]),
+                              note="a request that cannot be encoded does "
+                                   "not raise")
+            continue
+        dgs = []
+        for f in frames:
+            dgs += ecparse.parse(f)[1][1:]
+        if len(dgs) != 1:
+            res.violation(jcase, "request %d sent as one datagram" % k,
+                          dict(outcome=show(out), datagrams=len(dgs)),
+                          sig=core.digest(["count", shape, k, len(dgs)]),
+                          note="request not sent exactly once" + after)
+            continue
+        d = dgs[0]
+        if d.data != sent_exp or (d.cmd, d.adp, d.ado, d.idx) != \
+                (cmd, 7 + k, 0x120 + k, 3 + k):
+            res.violation(jcase, dict(request=k, data=sent_exp.hex()),
+                          dict(data=d.data.hex(), cmd=d.cmd, adp=d.adp,
+                               ado=d.ado, idx=d.idx),
+                          sig=core.digest(["hpayload", shape, k]),
+                          note="payload on the wire differs from the "
+                               "reference encoding" + after)
+        ok = out[0] == "result" and any(
+            type(out[1]) is type(a) and out[1] == a for a in accept)
+        res.outcomes.add((out[0], ok, k))
+        if not ok:
+            res.violation(jcase, dict(request=k, value=show(accept[0])),
+                          show(out[1:]),
+                          sig=core.digest(["hret", shape, k, out[0]]),
+                          note="returned value differs from the reference "
+                               "decoding" + after)
+
+
+# ------------------------------------------------------------------ alphabets
 def cases(ctx):
     out = []
     gl = GROUPS
     for n in range(0, 4 if ctx.quick else 5):
+        datas = DATA if n <= 2 or (n == 3 and not ctx.quick) else SMALL
         for groups in itertools.product(gl if n < 4 else GROUPS[::2],
                                         repeat=n):
             if ctx.quick and n == 3 and len({g[0] for g in groups}) < 2:
                 continue
             for readonly in ((False, True) if n else (False,)):
-                for data in DATA:
+                for data in datas:
                     if n == 0 and data is None:
                         continue
                     for cmd in ((4, 5) if n <= 1 else (4,)):
@@ -149,24 +321,138 @@ def cases(ctx):
     return out
 
 
+def refused_requests(ctx):
+    """requests that have to be refused: one bad group alone, behind / in
+    front of good ones, with and without trailing data; trailing data that
+    is too long or of the wrong type"""
+    good = GROUPS[1], GROUPS[2]
+    out = []
+    for bad in BAD_GROUPS:
+        out.append(((bad,), False, None, 4))
+        out.append(((good[0], bad), False, None, 4))
+        out.append(((bad, good[1]), True, None, 4))
+        out.append(((bad,), False, b"abc", 5))
+        if not ctx.quick:
+            out.append(((bad, good[1]), False, 3, 4))
+            out.append(((good[1], good[0], bad), False, b"", 4))
+    for groups in ((), (GROUPS[2],), (GROUPS[1], GROUPS[3])):
+        out.append((groups, False, 2000, 4))
+        out.append((groups, bool(groups), MAXDATA + 1, 4))
+        out.append((groups, False, bytes(range(256)) * 6, 5))
+        out.append((groups, False, "abc", 4))
+        out.append((groups, False, 2.5, 4))
+    return out
+
+
+def accepted_requests(ctx):
+    """requests for the histories: everything whose encoding contains zeros
+    the library has to supply (read-only formats, counts) or nothing at all,
+    next to plain writes and raw data"""
+    g = dict(GROUPS)
+    G = lambda *fmts: tuple((f, g[f]) for f in fmts)  # noqa: E731
+    out = [(G("H"), True, None, 4),
+           (G("H2xH"), True, None, 4),
+           (G("BQ"), True, None, 4),
+           (G("H", "I"), True, None, 4),
+           (G("B", "8s"), True, b"xyz", 4),
+           (G("HBB"), True, 10, 4),
+           (G("B"), False, 6, 4),
+           (G("H"), False, 0, 4),
+           (G("H"), False, b"", 5),
+           ((), False, 6, 4),
+           ((), False, 0, 4),
+           ((), False, b"", 4),
+           ((), False, b"raw only", 5),
+           (G("I", "H"), False, None, 5),
+           (G("q"), False, b"\x01", 4),
+           ((), False, MAXDATA, 4)]
+    if not ctx.quick:
+        for fmt, vals in GROUPS:
+            for data in (None, 0, 1, 8, b"", b"ab"):
+                out.append((((fmt, vals),), True, data, 4))
+                out.append(((GROUPS[0], (fmt, vals)), True, data, 4))
+            out.append((((fmt, vals),), False, 5, 4))
+    seen = set()
+    out = [r for r in out if not (repr(r) in seen or seen.add(repr(r)))]
+    return out
+
+
+def histories(ctx):
+    R = refused_requests(ctx)
+    A = accepted_requests(ctx)
+    quick = core.Ctx(ctx.prop, "quick", ctx.seed, 1)
+    A0 = accepted_requests(quick)
+    # the small alphabets for the first two of three requests: every bad
+    # group in a later field, every kind of bad trailing data; every second
+    # accepted request
+    R1 = [r for r in refused_requests(quick)
+          if len(r[0]) == 2 and r[0][0] == GROUPS[1] or r[0] == (GROUPS[2],)]
+    A1 = A0[::2]
+    out = []
+    for pair in itertools.product(R + A, A):
+        out.append(pair)
+    for a in A0:
+        for r in R:
+            out.append((a, r))
+    for x, y in itertools.product(R1 + A1, repeat=2):
+        for a in (A if ctx.quick else A0 + A[len(A0)::3]):
+            out.append((x, y, a))
+    return out
+
+
+def work(item, res):
+    kind, payload = item
+    if kind == "case":
+        run_case(payload, res)
+    else:
+        run_history(payload, res)
+
+
 def run(ctx):
-    items = cases(ctx)
-    res = core.pmap(ctx, run_case, items)
+    singles = cases(ctx)
+    hist = histories(ctx)
+    items = [("case", c) for c in singles] + [("hist", h) for h in hist]
+    res = core.pmap(ctx, work, items)
     res.cov["states"] = len(res.nontrivial)
     res.cov["traces_validated_against_impl"] = res.cov.get("evaluations", 0)
+    res.cov["single_requests"] = len(singles)
+    res.cov["alphabet"] = dict(
+        groups=len(GROUPS), data=len(DATA), bad_groups=len(BAD_GROUPS),
+        refused_requests=len(refused_requests(ctx)),
+        accepted_requests=len(accepted_requests(ctx)))
     res.sample(dict(args=["H", 0xB2C3, "4s"], data="b''",
                     meaning="one written H, a read-only 4s, empty raw data"))
+    res.sample(dict(history=["roundtrip(.., 'HH', 0x1234, 70000)",
+                             "roundtrip(.., 'H2xH')"],
+                    meaning="a request refused in its second field, then a "
+                            "read of six bytes on the same EtherCat object: "
+                            "six zeros on the wire"))
     res.assumptions += [
         "only the last format may be read-only (a format without values "
         "elsewhere is rejected by struct)",
         "with raw data and no formats either the raw bytes or a 1-tuple of "
-        "them is accepted as the return value"]
+        "them is accepted as the return value",
+        "a request cannot be encoded when struct refuses a group's values "
+        "for the group's format (range, type, number of values), when data "
+        "is neither None, an integer nor bytes, or when formats plus data "
+        "exceed the 1472 bytes a frame can hold; such a request must raise "
+        "(any exception) and send nothing - at which stage it is refused "
+        "is not judged",
+        "requests of a history run one after the other, each is left to "
+        "complete before the next is submitted (concurrency is C12's)"]
     return res
 
 
 def replay(ctx, rep):
     res = core.Result()
     c = rep["case"]
+    if "history" in c:
+        history = tuple(
+            (tuple((fmt, vals) for fmt, vals in unshow(r["groups"])),
+             r["readonly"], unshow(r["data"]), r["cmd"])
+            for r in c["history"])
+        run_history(history, res)
+        return res.violations
     byfmt = dict(GROUPS)
     groups, ro = [], False
     args = c["args"]
